@@ -135,11 +135,17 @@ def customValidate (t : TypeDef) (v : GValue) : Bool :=
   | ["String", "nonempty"], .str s => s != ""
   | _, _ => false
 
+def isNullV : GValue → Bool
+  | .null => true
+  | _ => false
+
 /-- `(Type::Scalar(scalar), Value(v)) if scalar.validate(v)`; `none` = error.
     With the defect repaired the built-in scalars check their value like the specification says. -/
 def scalarCheck (D : Defects) (S : Schema) (t : TypeDef) (v : GValue) : Option GValue :=
   if isBuiltin t.name then
-    if D.builtinScalarUnchecked then some (jsonOf v) else AGV.Spec.Exec.serializeLeaf S t.name v
+    if D.builtinScalarUnchecked then some (jsonOf v)
+    else if isNullV v then some .null   -- only reachable while `nullValueNotNull`: null is fine for every scalar
+    else AGV.Spec.Exec.serializeLeaf S t.name v
   else if customValidate t v then some (jsonOf v) else none
 
 /-- `Type::Enum`: `Value::Enum(name)` or `Value::String(name)` naming an item -/
